@@ -67,13 +67,46 @@ func (d *typeDictionary) findExternal(n Node, prefix, name string) (*Typedef, er
 	if root == nil {
 		return nil, fmt.Errorf("%s: unknown prefix: %s for type %s", Source(n), prefix, name)
 	}
-	if td := d.find(root, name); td != nil {
-		return td, nil
+	for _, m := range wholeModule(root) {
+		if td := d.find(m, name); td != nil {
+			return td, nil
+		}
 	}
 	if prefix != "" {
 		name = prefix + ":" + name
 	}
 	return nil, fmt.Errorf("%s: unknown type %s", Source(n), name)
+}
+
+// wholeModule returns root together with the rest of the module it is part
+// of: the module a submodule belongs to (when it is loaded) and all the
+// submodules reachable through resolved include statements.  Top-level
+// definitions of any of these are visible in all of them without a prefix.
+func wholeModule(root *Module) []*Module {
+	if root == nil {
+		return nil
+	}
+	mods := []*Module{root}
+	if root.BelongsTo != nil && root.Modules != nil {
+		if m := root.Modules.Modules[root.BelongsTo.Name]; m != nil {
+			mods = append(mods, m)
+		}
+	}
+	seen := map[*Module]bool{}
+	for i := 0; i < len(mods); i++ {
+		if seen[mods[i]] {
+			mods = append(mods[:i], mods[i+1:]...)
+			i--
+			continue
+		}
+		seen[mods[i]] = true
+		for _, in := range mods[i].Include {
+			if in.Module != nil && !seen[in.Module] {
+				mods = append(mods, in.Module)
+			}
+		}
+	}
+	return mods
 }
 
 // typedefs returns a slice of all typedefs in d.
@@ -187,9 +220,10 @@ check:
 				break check
 			}
 		}
-		// We need to check our sub-modules as well
-		for _, in := range root.Include {
-			if td = d.find(in.Module, name); td != nil {
+		// We need to check the rest of our module as well: the
+		// module we belong to and every submodule it includes.
+		for _, m := range wholeModule(root) {
+			if td = d.find(m, name); td != nil {
 				break check
 			}
 		}
